@@ -1,9 +1,14 @@
 #!/bin/sh
 # MANIFEST.setup_cmd: build the Lean project (models, proofs, drivers) offline from files on disk.
-set -e
-cd "$(dirname "$0")"
+# Builds the targets of every claimed property separately, so one broken target cannot block the others
+# (each ./check rebuilds its own targets anyway and reports a failing build itself).
+cd "$(dirname "$0")" || exit 2
 mkdir -p .locks evidence replays
-# regenerate the extracted-fact files from /repo's current tree before building
-/venv/bin/python harness/extract_all.py || echo "extract_all: some extractors failed (the checks will report it)"
-cd lean
-lake build 2>&1 | grep -v 'conda.cli' | tail -n 40
+/venv/bin/python harness/extract_all.py >/dev/null 2>&1 || echo "setup: some extractors failed (the checks will report it)"
+ids=$(/venv/bin/python -c "import json;print(' '.join(c['property_id'] for c in json.load(open('MANIFEST.json'))['checks']))")
+cd lean || exit 2
+for id in $ids; do
+  lc=$(echo "$id" | tr 'A-Z' 'a-z')
+  flock ../.locks/lake.lock lake build "drv_$lc" "PyroProps.$id" 2>&1 | grep -v 'conda.cli' | tail -n 3
+done
+exit 0
